@@ -104,6 +104,9 @@ func (c *otApplyContext) applyBackward(accel *otLayoutLookupAccelerator) bool {
 		buffer.idx--
 
 	}
+	// the loop ends with idx == -1 (an unsigned value in Harfbuzz, which every
+	// later comparison treats as "after the end"): do not leave a negative index behind
+	buffer.idx = len(buffer.Info)
 	return ret
 }
 
